@@ -158,7 +158,7 @@ func runPoolScenario(cfg PoolCfg, steps []poolStep, expKeys []evKey, seed int64)
 			case ch != nil:
 				select {
 				case <-ch:
-				case <-time.After(20 * time.Second):
+				case <-time.After(8 * time.Second):
 					p.mu.Lock()
 					p.stuck = true
 					p.mu.Unlock()
@@ -335,7 +335,7 @@ func runPoolScenario(cfg PoolCfg, steps []poolStep, expKeys []evKey, seed int64)
 	}()
 	select {
 	case <-finished:
-	case <-time.After(40 * time.Second):
+	case <-time.After(15 * time.Second):
 		p.log(Event{"ev": "hang"})
 	}
 	close(p.done)
@@ -401,8 +401,12 @@ func init() {
 				cfg := parsePoolCfg(asMap(line["cfg"]))
 				cfg.Sched = "script"
 				exp := asList(line["h"])
+				if tooManyHangs() {
+					break
+				}
 				steps, keys := poolStepsFromHistory(exp)
 				evs := runPoolScenario(cfg, steps, keys, seed)
+				noteHang(evs)
 				id++
 				o.WriteScenario(id, "pool", "tlc", cfg.toJSON(), exp, evs)
 			}
@@ -432,7 +436,11 @@ func init() {
 					cfg.W = r.Intn(5) - 1
 					cfg.Per = r.Intn(5)
 				}
+				if tooManyHangs() {
+					break
+				}
 				evs := runPoolScenario(cfg, nil, nil, r.Int63())
+				noteHang(evs)
 				id++
 				o.WriteScenario(id, "pool", "gen:"+mode, cfg.toJSON(), nil, evs)
 			}
